@@ -9,7 +9,7 @@ from .. import contracts, gen, ref
 from ..core import FAILED
 
 DECIDING = ["contract:partial_trace", "O2:compose", "O2:product", "O2:trace-preserved", "O2:linear", "O3:scalar-dim", "O3:defaults",
-            "O4:cvxpy-value", "H1:repeat-call"]
+            "O4:cvxpy-value", "H1:repeat-call", "O1:many-subsystems"]
 RULE = ("cases = (local dims in 1..4, n<=5, N<=144) x every non-empty subset S (all listing orders for |S|<=3, n<=4) x dtype; "
         "entries unique ids; a signature is (monitor, n, |S|, non-uniform dims?) and is non-trivial when S is a proper subset")
 CASE_TIMEOUT = {"quick": 240, "thorough": 3000}
@@ -40,6 +40,8 @@ def cases(tier):
         out.append(("cvx", r))
     for r in range(40 if tier == "quick" else 3000):
         out.append(("repeat", r))
+    for r in range(48 if tier == "quick" else 4000):
+        out.append(("many", r))
     if tier == "thorough":
         out.append(("suite", 0))
     return out
@@ -67,7 +69,11 @@ def _run_num(ctx, spec, rng):
         else:
             s = list(spec[2])
         kind = "ifc"[int(rng.integers(0, 3))]
-        x = gen.layout(gen.unique_ids((big, big), kind), ["C", "F", "ro", "strided"][int(rng.integers(0, 4))])
+        if rng.random() < 0.25:  # integer types narrower than the platform integer, entries near the type's limits
+            x0 = gen.narrow_ints(rng, (big, big), gen.NARROW[int(rng.integers(0, len(gen.NARROW)))])
+        else:
+            x0 = gen.unique_ids((big, big), kind)
+        x = gen.layout(x0, ["C", "F", "ro", "strided"][int(rng.integers(0, 4))])
         sysarg = s[0] if len(s) == 1 and rng.random() < 0.5 else list(s)
         dimarg = list(d) if rng.random() < 0.7 else np.array(d)
         res = ctx.call(partial_trace, x, sysarg, dimarg)  # O1 decided by the attached contract
@@ -77,6 +83,32 @@ def _run_num(ctx, spec, rng):
         keep = [d[i] for i in range(n) if i not in s]
         want = int(np.prod(keep)) if keep else 1
         ctx.check("O1:shape", np.shape(res) == (want, want), mech="partial_trace:shape", detail={"d": d, "s": s, "shape": np.shape(res)})
+
+
+def _run_many(ctx, spec, rng):
+    """Nine to thirteen subsystems (most of local dimension 1 or 2, total size <= 1024): the order of the kept subsystems must still be the original one."""
+    from toqito.channels import partial_trace
+
+    d = gen.many_dims(rng, cap=512 if ctx.tier == "quick" else 1024)
+    n = len(d)
+    big = int(np.prod(d))
+    k = int(rng.integers(1, n))
+    if rng.random() < 0.5:  # leading block traced: the kept subsystems are the high positions
+        s = list(range(k))
+        if rng.random() < 0.5:
+            s = [int(v) for v in rng.permutation(s)]
+    else:
+        s = [int(v) for v in rng.permutation(n)[:k]]
+    x = gen.unique_ids((big, big), "ifc"[int(rng.integers(0, 3))])
+    res = ctx.call(partial_trace, x, list(s), list(d) if rng.random() < 0.7 else np.array(d))
+    if res is FAILED:
+        return
+    want = ref.partial_trace(x, s, d)
+    keep = [d[i] for i in range(n) if i not in s]
+    ok = np.shape(res) == want.shape and bool(np.allclose(res, want, rtol=1e-12, atol=0))
+    ctx.check("O1:many-subsystems", ok, sig=(n, len(s), sum(1 for v in keep if v > 1) > 1), nt=sum(1 for v in keep if v > 1) > 1,
+              mech="partial_trace:kept-subsystems-out-of-order[>=9 subsystems]", detail={"d": d, "s": s})
+    ctx.sample("O1:many-subsystems", {"dims": d, "sys": s})
 
 
 def _run_meta(ctx, spec, rng):
